@@ -252,7 +252,7 @@ func H_Assembled() {
 
 // H_AssembledKinds: the same with a cached input kind, a destroy-ready input and a mapped input.
 func H_AssembledKinds() {
-	nw := 1 + moreWrites()
+	nw := 1 // both tiers; the thorough tier only deepens the delay bound (one more write: 770 000 paths)
 	v := variant{}
 	switch verif.Choose("variant", 5) {
 	case 0:
